@@ -139,76 +139,8 @@ func runC07(c *report.Ctx) {
 	}
 
 	// ---- cursor pull-back ------------------------------------------------------------------------------------
-	c.Rule("cursor-pullback", "disconnectBlock(height) rewrites the rescan cursor of every non-ready wallet whose cursor is above height-1 to height-1, in the same transaction as the rollback", 3)
-	db := fn(c, pkgWallet, "NtfnsHandler", "disconnectBlock")
-	putWS := fn(c, pkgTxmgr, "SyncStore", "PutWalletStatus")
-	ready := fn(c, pkgTxmgr, "WalletStatus", "Ready")
-	getAll := fn(c, pkgTxmgr, "SyncStore", "GetAllWalletStatus")
+	ruleCursorPullback(c)
 	ws := p.Type(pkgTxmgr, "WalletStatus")
-	if db != nil && putWS != nil && ready != nil && ws != nil && getAll != nil {
-		isResetHeight := func(v ssa.Value) bool {
-			b, ok := v.(*ssa.BinOp)
-			if !ok || b.Op != token.SUB {
-				return false
-			}
-			_, isPar := b.X.(*ssa.Parameter)
-			k, isK := b.Y.(*ssa.Const)
-			return isPar && isK && k.Value != nil && k.Value.ExactString() == "1"
-		}
-		ps := calls(db, putWS)
-		if len(ps) == 0 {
-			c.Fail(sk(db)+":PutWalletStatus", "disconnectBlock no longer rewrites wallet statuses: a reorg below an importing wallet's cursor leaves blocks of the new branch unscanned", p.Pos(db.Pos()))
-		}
-		for i, s := range ps {
-			gs := p.GuardsOf(s)
-			key := siteKey(db, "PutWalletStatus", i+1)
-			notReady := an.AnyAtom(gs, func(a an.Atom) bool { return an.BoolCall(a, ready, "", false) })
-			above := an.AnyAtom(gs, func(a an.Atom) bool {
-				return a.Op == token.GTR && a.X != nil && p.Desc(a.X) == "WalletStatus.SyncedHeight" && isResetHeight(a.Y)
-			})
-			inLoop := loopHeaderOf(s.Block()) != nil
-			// tx argument is disconnectBlock's own transaction parameter
-			sameTx := false
-			if cc := an.CallOf(s); len(cc.Args) >= 2 {
-				if par, ok := stripIface(cc.Args[1]).(*ssa.Parameter); ok && par.Parent() == db {
-					sameTx = true
-				}
-			}
-			var miss []string
-			if !notReady {
-				miss = append(miss, "!ws.Ready()")
-			}
-			if !above {
-				miss = append(miss, "ws.SyncedHeight > height-1")
-			}
-			if !inLoop {
-				miss = append(miss, "inside the loop over all statuses")
-			}
-			if !sameTx {
-				miss = append(miss, "on the rollback's own transaction")
-			}
-			if len(miss) == 0 {
-				c.OK(key, "under !Ready() && SyncedHeight > height-1, per status row, same transaction", posOf(c, s))
-			} else {
-				c.Fail(key, "the cursor pull-back is not guarded by/placed "+strings.Join(miss, ", ")+": a cursor sitting exactly on a disconnected height is not pulled back and the replacement block is never rescanned", posOf(c, s), an.AtomTexts(gs)...)
-			}
-		}
-		// the value written is height-1
-		okVal := false
-		for _, st := range fieldStores(db, ws, "SyncedHeight") {
-			if isResetHeight(st.(*ssa.Store).Val) {
-				okVal = true
-			}
-		}
-		if okVal {
-			c.OK(sk(db)+":cursor=height-1", "SyncedHeight := height-1", p.Pos(db.Pos()))
-		} else {
-			c.Fail(sk(db)+":cursor=height-1", "the cursor is not set to height-1", p.Pos(db.Pos()))
-		}
-		mustPassExcept(c, db, an.Set(getAll), "GetAllWalletStatus", func(t string) bool {
-			return strings.Contains(t, "> BlockMeta.Height") || strings.Contains(t, "BlockMeta.Height <")
-		}, "block above the synced height")
-	}
 
 	// ---- import batch ------------------------------------------------------------------------------------------
 	c.Rule("import-batch", "an import batch scans from cursor+1 over all of the wallet's addresses, applies each indexed transaction completely and hands over in the batch that reached the tip", 6)
@@ -295,5 +227,80 @@ func stripIface(v ssa.Value) ssa.Value {
 		default:
 			return v
 		}
+	}
+}
+
+// ruleCursorPullback is shared by C07/C01: a reorg pulls the rescan cursor of importing wallets back below the fork.
+func ruleCursorPullback(c *report.Ctx) {
+	p := c.P
+	c.Rule("cursor-pullback", "disconnectBlock(height) rewrites the rescan cursor of every non-ready wallet whose cursor is above height-1 to height-1, in the same transaction as the rollback", 3)
+	db := fn(c, pkgWallet, "NtfnsHandler", "disconnectBlock")
+	putWS := fn(c, pkgTxmgr, "SyncStore", "PutWalletStatus")
+	ready := fn(c, pkgTxmgr, "WalletStatus", "Ready")
+	getAll := fn(c, pkgTxmgr, "SyncStore", "GetAllWalletStatus")
+	ws := p.Type(pkgTxmgr, "WalletStatus")
+	if db != nil && putWS != nil && ready != nil && ws != nil && getAll != nil {
+		isResetHeight := func(v ssa.Value) bool {
+			b, ok := v.(*ssa.BinOp)
+			if !ok || b.Op != token.SUB {
+				return false
+			}
+			_, isPar := b.X.(*ssa.Parameter)
+			k, isK := b.Y.(*ssa.Const)
+			return isPar && isK && k.Value != nil && k.Value.ExactString() == "1"
+		}
+		ps := calls(db, putWS)
+		if len(ps) == 0 {
+			c.Fail(sk(db)+":PutWalletStatus", "disconnectBlock no longer rewrites wallet statuses: a reorg below an importing wallet's cursor leaves blocks of the new branch unscanned", p.Pos(db.Pos()))
+		}
+		for i, s := range ps {
+			gs := p.GuardsOf(s)
+			key := siteKey(db, "PutWalletStatus", i+1)
+			notReady := an.AnyAtom(gs, func(a an.Atom) bool { return an.BoolCall(a, ready, "", false) })
+			above := an.AnyAtom(gs, func(a an.Atom) bool {
+				return a.Op == token.GTR && a.X != nil && p.Desc(a.X) == "WalletStatus.SyncedHeight" && isResetHeight(a.Y)
+			})
+			inLoop := loopHeaderOf(s.Block()) != nil
+			// tx argument is disconnectBlock's own transaction parameter
+			sameTx := false
+			if cc := an.CallOf(s); len(cc.Args) >= 2 {
+				if par, ok := stripIface(cc.Args[1]).(*ssa.Parameter); ok && par.Parent() == db {
+					sameTx = true
+				}
+			}
+			var miss []string
+			if !notReady {
+				miss = append(miss, "!ws.Ready()")
+			}
+			if !above {
+				miss = append(miss, "ws.SyncedHeight > height-1")
+			}
+			if !inLoop {
+				miss = append(miss, "inside the loop over all statuses")
+			}
+			if !sameTx {
+				miss = append(miss, "on the rollback's own transaction")
+			}
+			if len(miss) == 0 {
+				c.OK(key, "under !Ready() && SyncedHeight > height-1, per status row, same transaction", posOf(c, s))
+			} else {
+				c.Fail(key, "the cursor pull-back is not guarded by/placed "+strings.Join(miss, ", ")+": a cursor sitting exactly on a disconnected height is not pulled back and the replacement block is never rescanned", posOf(c, s), an.AtomTexts(gs)...)
+			}
+		}
+		// the value written is height-1
+		okVal := false
+		for _, st := range fieldStores(db, ws, "SyncedHeight") {
+			if isResetHeight(st.(*ssa.Store).Val) {
+				okVal = true
+			}
+		}
+		if okVal {
+			c.OK(sk(db)+":cursor=height-1", "SyncedHeight := height-1", p.Pos(db.Pos()))
+		} else {
+			c.Fail(sk(db)+":cursor=height-1", "the cursor is not set to height-1", p.Pos(db.Pos()))
+		}
+		mustPassExcept(c, db, an.Set(getAll), "GetAllWalletStatus", func(t string) bool {
+			return strings.Contains(t, "> BlockMeta.Height") || strings.Contains(t, "BlockMeta.Height <")
+		}, "block above the synced height")
 	}
 }
